@@ -678,6 +678,12 @@ def ord_parse_pipeline(repo, tier="quick"):
     for call, nid, _ in fl.calls_to("dialects:check_and_cast_types"):
         ct = fl.canon(call, nid)
         ok = len(ct[3]) == 2 and method_call(ct[3][0], "bind") is not None and ct[3][1] == ("param", "dialect_signature")
+        if not ok and len(ct[3]) == 1 and not ct[4] and method_call(ct[3][0], "bind") is not None and method_call(ct[3][0], "bind")[0] == ("param", "dialect_signature"):
+            # the cast takes the signature from the bound arguments themselves (BoundArguments.signature is the binding signature)
+            callee = repo.function("dialects:check_and_cast_types")
+            p0 = callee.positional_params[0] if callee.positional_params else None
+            reads_sig = any(isinstance(x, ast.Attribute) and x.attr == "signature" and isinstance(x.value, ast.Name) and x.value.id == p0 for x in ast.walk(callee.node))
+            ok = reads_sig
         (obs.append(ob_ok(oid, fi, call, construct="check_and_cast_types(bound, dialect_signature)", instance="cast:args", reason="types come from the dialect that bound the values")) if ok else
          obs.append(ob_fail(oid, fi, call, construct=show(ct), instance="cast:args", reason="the cast does not check the bound arguments against the binding dialect's types")))
     # result: free keywords merged and reserved keys present
